@@ -402,14 +402,15 @@ def f11b : List Chain :=
       .val none (.mk none [.access (.var "c") []])]] ]
 
 example : evalProgram 12 f11a = .ok Val.nil := by rfl
-example : evalProgram 12 f11b =
+example : evalProgram 30 f11b =
     .ok (.tup none [(none, Val.nil), (none, .int 7), (none, .int 8)]) := by rfl
 /-- fuel decides only whether there is a result (`eval_fuel_mono` with n = 12, m = 40) -/
 example : evalProgram 3 f11a = .fuelOut := by rfl
-example : evalProgram 40 f11a = .ok Val.nil := eval_fuel_mono (by decide) f11a _ (by rfl) (by simp)
+example : evalProgram 40 f11a = .ok Val.nil :=
+  eval_fuel_mono (n := 12) (m := 40) (by decide) f11a _ (by rfl) (by simp)
 
 /-- `[], 5` : the hypothesis of `seq_nil_short_circuits` holds for the step `[]` -/
-example : evalChain 3 [] Val.nil (.mk none [.tuple .anon []]) = .ok (Val.nil, []) := by rfl
+example : evalChain 4 [] Val.nil (.mk none [.tuple .anon []]) = .ok (Val.nil, []) := by rfl
 example : evalProgram 9 [.mk none [.tuple .anon []], .mk none [.lit (.int 5)]] = .ok Val.nil := by rfl
 /-- `[] [~, 5]` : one chain, nil flows on (`chain_is_infallible_pipe`) -/
 example : evalProgram 12 [.mk none [.tuple .anon [],
@@ -429,13 +430,13 @@ example : evalProgram 12 [.mk (some (.bind "x")) [.lit (.int 1)],
       .mk none [.block (.mk [.mk [.mk (some (.bind "x")) [.lit (.int 2)]] none])],
       .mk none [.access (.var "x") []]] = .ok (.int 1) := by rfl
 /-- `x = 1, f = #{ x }, x = 2, [] f` : closures capture bindings (value 1) -/
-example : evalProgram 14 [.mk (some (.bind "x")) [.lit (.int 1)],
+example : evalProgram 30 [.mk (some (.bind "x")) [.lit (.int 1)],
       .mk (some (.bind "f")) [.fn true (some (.mk [.mk [.mk none [.access (.var "x") []]] none]))],
       .mk (some (.bind "x")) [.lit (.int 2)],
       .mk none [.tuple .anon [], .access (.var "f") []]] = .ok (.int 1) := by rfl
 /-- `[5, 6] =[x, x]` fails, `[5, 5] =[x, x]` succeeds (repeated binder = equality) -/
 example : doMatch [] (.tup none [(none, .bind "x"), (none, .bind "x")])
-    (.tup none [(none, .int 5), (none, .int 6)]) = .ok (Val.nil, [("x", none)]) := by rfl
+    (.tup none [(none, .int 5), (none, .int 6)]) = .ok (Val.nil, [("x", none), ("x", none)]) := by rfl
 example : doMatch [] (.tup none [(none, .bind "x"), (none, .bind "x")])
     (.tup none [(none, .int 5), (none, .int 5)]) = .ok (Val.okv, [("x", some (.int 5))]) := by rfl
 end Ex
